@@ -108,8 +108,10 @@ def mc_jobs(tier):
             ("pool_slow", "Pool", pool_consts((1, 2), lat=3, npolls=4, maxarr=3, maxhold=3), POOL_INVS, False, False,
              mid),
             ("pool_nw4", "Pool", pool_consts((1, 2, 3), nw=4, maxarr=2, maxhold=1), POOL_INVS, False, False, mid),
-            ("preempt_cap2", "Preempt", preempt_consts(caps=(1, 2), maxprio=2, holds=(0, 2)), PREEMPT_INVS, False, False,
+            ("preempt_cap2", "Preempt", preempt_consts(caps=(1, 2), maxprio=1, holds=(0, 2)), PREEMPT_INVS, False, False,
              big),
+            ("preempt_prio3", "Preempt", preempt_consts(caps=(1,), maxprio=2, holds=(0, 2)), PREEMPT_INVS, True, False,
+             mid),
             ("barrier_nw5", "Barrier", barrier_consts(nw=5, parties=(2, 3, 4), maxarr=2), BARRIER_INVS, True, False,
              mid),
         ]
